@@ -3,64 +3,83 @@ Import ListNotations.
 From TD Require Import Model.C18_Names.
 Open Scope string_scope.
 
-(* setter: on a tensordict that is not named yet the two arms agree, for every value (valid or not) *)
-Theorem names_set_dual_unnamed bd value : names_set true bd None value = names_set false bd None value.
+(* ---- the working tree (repair D1801 applied): __init__ and the setter do not ask is_compiling() any more ---- *)
+
+(* setter: the two arms agree for every state and every value (valid or not) *)
+Theorem names_set_dual bd cur value : names_set true bd cur value = names_set false bd cur value.
+Proof. reflexivity. Qed.
+
+(* __init__: the two arms agree for every names argument (valid or not): names are kept, invalid names are rejected *)
+Theorem init_names_dual bd names : init_names true bd names = init_names false bd names.
+Proof. reflexivity. Qed.
+
+(* the setter stores what it was given when it accepts it *)
+Lemma names_set_ok bd compile cur v s : names_set compile bd cur (Some v) = NOk s -> s = None \/ s = Some v.
 Proof.
-  unfold names_set. destruct value as [v|]; [|reflexivity].
-  destruct (Nat.eqb (count_none v) bd); reflexivity.
-Qed.
-
-(* setter: with a value that names at least one dimension the two arms agree whatever the current state *)
-Theorem names_set_dual_naming bd cur v :
-  count_none v <> bd -> names_set true bd cur (Some v) = names_set false bd cur (Some v).
-Proof.
-  intros H. unfold names_set. destruct (Nat.eqb (count_none v) bd) eqn:E; [apply Nat.eqb_eq in E; contradiction|reflexivity].
-Qed.
-
-(* ... and they do NOT agree in general: erasing the names of a named tensordict is skipped by the compile arm *)
-Theorem names_set_dual_refuted : exists bd cur value,
-  observe_names bd (names_set true bd cur value) <> observe_names bd (names_set false bd cur value).
-Proof. exists 1, (Some [Some "a"]), None. vm_compute. discriminate. Qed.
-
-(* __init__: the full statement is false of the code (names are dropped, and invalid names are not rejected) *)
-Theorem init_names_dual_refuted : exists bd names,
-  observe_names bd (init_names true bd names) <> observe_names bd (init_names false bd names).
-Proof. exists 1, (Some [Some "a"]). vm_compute. discriminate. Qed.
-
-Theorem init_names_rejects_refuted : exists bd names,
-  init_names false bd names = NValueError /\ init_names true bd names = NOk None.
-Proof. exists 1, (Some [Some "a"; Some "b"]). split; reflexivity. Qed.
-
-(* ... it holds exactly when no dimension is named *)
-Theorem init_names_dual_partial bd names :
-  (names = None \/ exists v, names = Some v /\ count_none v = bd) ->
-  init_names true bd names = init_names false bd names.
-Proof.
-  intros [->|[v [-> H]]]; unfold init_names, names_set; [reflexivity|].
-  rewrite (proj2 (Nat.eqb_eq _ _) H). reflexivity.
-Qed.
-
-(* the eager arm stores what it was given when it accepts it *)
-Lemma names_set_eager_ok bd cur v s : names_set false bd cur (Some v) = NOk s -> s = None \/ s = Some v.
-Proof.
-  unfold names_set. destruct (Nat.eqb (count_none v) bd); [intros H; injection H as <-; now left|].
+  unfold names_set, names_set_gen. rewrite andb_false_r.
+  destruct (Nat.eqb (count_none v) bd); [intros H; injection H as <-; now left|].
   destruct (negb _); [discriminate|]. destruct (negb _); [discriminate|]. intros H; injection H as <-; now right.
 Qed.
 
-(* conversely, whenever the arms agree on __init__, nothing ended up named *)
-Theorem init_names_dual_only_unnamed bd names :
-  init_names true bd names = init_names false bd names -> init_names false bd names = NOk None.
-Proof. unfold init_names at 1. cbn. intros H. now rewrite <- H. Qed.
+(* ... and it erases exactly when no dimension is named *)
+Lemma names_set_erases bd compile cur v : count_none v = bd -> names_set compile bd cur (Some v) = NOk None.
+Proof.
+  intros H. unfold names_set, names_set_gen. rewrite andb_false_r. now rewrite (proj2 (Nat.eqb_eq _ _) H).
+Qed.
 
-(* _new_unsafe: same defect through the fallback; for another class (a subclass keeps the eager path) the arms coincide *)
-Theorem new_unsafe_names_dual_subclass bd names :
-  new_unsafe_names true false bd names = new_unsafe_names false false bd names.
-Proof. reflexivity. Qed.
+(* _new_unsafe: the two arms store the same raw state, for every class and every names argument (checked or not: the
+   function is "unsafe" on both paths) *)
+Theorem new_unsafe_names_dual bd cls_is_td names :
+  new_unsafe_names true cls_is_td bd names = new_unsafe_names false cls_is_td bd names.
+Proof. destruct cls_is_td; reflexivity. Qed.
 
-Theorem new_unsafe_names_dual_partial bd :
-  new_unsafe_names true true bd None = new_unsafe_names false true bd None.
-Proof. reflexivity. Qed.
+(* ... namely the names it was given *)
+Theorem new_unsafe_names_stores compile cls_is_td bd names : new_unsafe_names compile cls_is_td bd names = NOk names.
+Proof. destruct compile, cls_is_td; reflexivity. Qed.
 
-Theorem new_unsafe_names_dual_refuted : exists bd names,
-  observe_names bd (new_unsafe_names true true bd names) <> observe_names bd (new_unsafe_names false true bd names).
+(* ---- the code before repair D1801 ([repaired := false]) fails every one of these statements ---- *)
+
+(* erasing the names of a named tensordict was skipped by the compile arm *)
+Theorem names_set_unrepaired_refuted : exists bd cur value,
+  observe_names bd (names_set_unrepaired true bd cur value) <> observe_names bd (names_set_unrepaired false bd cur value).
+Proof. exists 1, (Some [Some "a"]), None. vm_compute. discriminate. Qed.
+
+(* names were dropped by __init__ ... *)
+Theorem init_names_unrepaired_refuted : exists bd names,
+  observe_names bd (init_names_unrepaired true bd names) <> observe_names bd (init_names_unrepaired false bd names).
 Proof. exists 1, (Some [Some "a"]). vm_compute. discriminate. Qed.
+
+(* ... and invalid names were not rejected *)
+Theorem init_names_unrepaired_rejects_refuted : exists bd names,
+  init_names_unrepaired false bd names = NValueError /\ init_names_unrepaired true bd names = NOk None.
+Proof. exists 1, (Some [Some "a"; Some "b"]). split; reflexivity. Qed.
+
+(* _new_unsafe: the same defect through the fallback to __init__; a subclass kept the eager path *)
+Theorem new_unsafe_names_unrepaired_refuted : exists bd names,
+  observe_names bd (new_unsafe_names_unrepaired true true bd names) <> observe_names bd (new_unsafe_names_unrepaired false true bd names).
+Proof. exists 1, (Some [Some "a"]). vm_compute. discriminate. Qed.
+
+Theorem new_unsafe_names_unrepaired_partial bd names :
+  new_unsafe_names_unrepaired true false bd names = new_unsafe_names_unrepaired false false bd names
+  /\ new_unsafe_names_unrepaired true true bd None = new_unsafe_names_unrepaired false true bd None.
+Proof. split; reflexivity. Qed.
+
+(* what did hold before the repair: the setter agreed on a tensordict that was not named yet, and for any value naming
+   a dimension; __init__ agreed exactly when no dimension was named *)
+Theorem names_set_unrepaired_unnamed bd value :
+  names_set_unrepaired true bd None value = names_set_unrepaired false bd None value.
+Proof.
+  unfold names_set_unrepaired, names_set_gen. destruct value as [v|]; [|reflexivity].
+  destruct (Nat.eqb (count_none v) bd); reflexivity.
+Qed.
+
+Theorem names_set_unrepaired_naming bd cur v :
+  count_none v <> bd -> names_set_unrepaired true bd cur (Some v) = names_set_unrepaired false bd cur (Some v).
+Proof.
+  intros H. unfold names_set_unrepaired, names_set_gen.
+  destruct (Nat.eqb (count_none v) bd) eqn:E; [apply Nat.eqb_eq in E; contradiction|reflexivity].
+Qed.
+
+Theorem init_names_unrepaired_only_unnamed bd names :
+  init_names_unrepaired true bd names = init_names_unrepaired false bd names -> init_names_unrepaired false bd names = NOk None.
+Proof. unfold init_names_unrepaired, init_names_gen at 1. cbn. intros H. now rewrite <- H. Qed.
